@@ -162,6 +162,9 @@ def _num(cname, fname, params, route):
 
 
 def replay(p):
+    if p.get("kind") == "wrapper":
+        pr = wrapper_problem()
+        return bool(pr), pr or "agree"
     return _num(p["circuit"], p["final"], p["params"], p["route"])
 
 
@@ -262,6 +265,59 @@ def work(item):
         return [{"name": name, "status": "unsupported", "detail": f"{e!r} {tb}"}]
 
 
+def wrapper_problem():
+    """qp.snapshots(qnode): the SAME wrapper called repeatedly must behave like a fresh wrapper on every call (results of one call are
+    not altered by the next, no tag survives from an earlier call, values are those of the current arguments)"""
+    dev = qp.device("default.qubit")
+
+    @qp.qnode(dev)
+    def circ(a, b):
+        qp.RX(a, 0)
+        qp.Snapshot("s0")
+        if a > 1:
+            qp.Snapshot("only for large a", measurement=qp.probs(wires=[0]))
+        qp.CNOT([0, 1])
+        qp.RY(b, 1)
+        qp.Snapshot("s1", measurement=qp.expval(qp.Z(1)))
+        return qp.expval(qp.Z(0) @ qp.Z(1))
+
+    def same(x, y):
+        return np.shape(x) == np.shape(y) and bool(np.allclose(np.asarray(x, dtype=complex), np.asarray(y, dtype=complex), atol=1e-9))
+
+    f = qp.snapshots(circ)
+    calls = [(1.3, 0.7), (0.3, -0.4), (1.3, 0.7), (2.1, 0.2)]
+    kept = []
+    for k, args in enumerate(calls):
+        r = f(*args)
+        fresh = qp.snapshots(circ)(*args)
+        if list(r) != list(fresh):
+            return f"call {k + 1} of the same qp.snapshots(qnode) wrapper with arguments {args}: tags {list(r)}, a fresh wrapper gives {list(fresh)}"
+        for tag in fresh:
+            if not same(r[tag], fresh[tag]):
+                return f"call {k + 1} of the same qp.snapshots(qnode) wrapper with arguments {args}: snapshot {tag!r} = {r[tag]}, a fresh wrapper gives {fresh[tag]}"
+        for (k0, args0, r0, copy0) in kept:
+            if list(r0) != list(copy0) or any(not same(r0[t], copy0[t]) for t in copy0):
+                return f"the result returned by call {k0 + 1} ({args0}) was altered by call {k + 1} ({args})"
+        kept.append((k, args, r, {t: np.array(v, copy=True) for t, v in r.items()}))
+    return None
+
+
+def wrapper_work(_):
+    try:
+        pr = wrapper_problem()
+    except Exception as e:  # noqa: BLE001
+        pr = f"raised {e!r}"
+    rec = {"name": "qp.snapshots(qnode): one wrapper called four times (tags depending on the arguments) behaves like a fresh wrapper each time", "status": "violated" if pr else "discharged", "symbols": [], "nontrivial": False,
+           "queries": 0, "detail": pr or "agree"}
+    if pr:
+        rec.update(signature="qnode-wrapper", replay={"kind": "wrapper", "observed": pr})
+    return [rec]
+
+
+def _dispatch(it):
+    return wrapper_work(it) if it[0] == "qnode-wrapper" else work(it)
+
+
 def run(ctx):
     ctx.level = "proof"
     items = [(c, f, r) for c in CIRCUITS for f in FINALS for r in ("transform", "device debugger", "default.mixed debugger")]
@@ -269,6 +325,7 @@ def run(ctx):
         if lab:
             for c in ("expval and probs snapshots", "density matrix snapshot", "snapshot before any gate on wire 1", "three wires, late wire"):
                 items += [(c + lab, "expval Z0, probs[1]", r) for r in ("transform", "device debugger", "default.mixed debugger")]
+    items.append(("qnode-wrapper", "-", "repeated calls"))
     if ctx.only:
         items = [it for it in items if ctx.only in f"snapshots via {it[2]} on {it[0]} [{it[1]}]"]
     ctx.shapes = len(items)
@@ -277,7 +334,8 @@ def run(ctx):
 
     ctx.encode(qp.snapshots, apply_snapshot, get_final_state, measure_final_state)
     ctx.bound(parameters="all real gate angles (3 symbols)", circuits=list(CIRCUITS), wire_labelings=["0,1,2", "1,2,4 (non-contiguous)", "b,a,c (strings)"], snapshot_kinds=list(SNAPS), routes=["qp.snapshots tape transform + lifted default.qubit", "default.qubit with an active snapshot debugger", "default.mixed with an active snapshot debugger"],
-              outside="snapshots with shots (sampling), QNode wrapper plumbing (qp.snapshots(qnode)), default.gaussian / legacy devices, duplicate string tags")
+              qnode_wrapper="one structural obligation: repeated calls of the same qp.snapshots(qnode) wrapper (concrete arguments, no solver)",
+              outside="snapshots with shots (sampling), default.gaussian / legacy devices, duplicate string tags")
     ctx.assume(*sx.SHIM_NOTES, "prefix tapes of the transform are compared in the wire order of the generated tape (the transform keeps only the wires used so far)")
     ctx.rule = "one obligation per (circuit, final measurements, route, snapshot or final result); non-trivial = mentions a symbolic angle"
-    ctx.pmap(work, items, timeout_each=900)
+    ctx.pmap(_dispatch, items, timeout_each=900)
